@@ -486,6 +486,20 @@ def check_cfg(ctx, facts, cfg):
         for fp, f2 in sorted(facts.fns.items()):
             if f2.impl_trait == 'rate::RateDecoder' and f2.name == 'decode':
                 evs = [t for b, t in f2.body.calls() if t['callee'].get('decl') == 'engine::Engine::eval_poly']
+                # ... or through private generic helpers which are handed the decoder's own engine parameter
+                seen_h, todo_h = set(), [(f2, 0)]
+                while todo_h:
+                    g_, d_ = todo_h.pop()
+                    for b, t in g_.body.calls():
+                        hp = t['callee'].get('path')
+                        h_ = facts.fns.get(hp)
+                        if h_ is None or hp in seen_h or d_ >= 3 or h_.reachable or h_.impl_trait or h_.in_trait or t['callee'].get('trait'):
+                            continue
+                        if t['callee'].get('decl_args') != ['E']:
+                            continue
+                        seen_h.add(hp)
+                        evs += [dict(t2, via=hp) for b2, t2 in h_.body.calls() if t2['callee'].get('decl') == 'engine::Engine::eval_poly']
+                        todo_h.append((h_, d_ + 1))
                 if evs:
                     nd += 1
                     for t in evs:
